@@ -71,14 +71,6 @@ theorem kinds_finish (p : ProxyS) (m : MuxL) (e : ESock) (se : Bool) : Kinds m (
   · split <;> exact kinds_mwNowrite p.mw m
   · exact Kinds.refl m
 
-theorem kinds_cleanup (p : ProxyS) (m : MuxL) (e : ESock) (se : Bool) : Kinds m (p.cleanup m e se).2.1 := by
-  unfold ProxyS.cleanup
-  by_cases hf : p.sockFirst = true
-  · simp only [hf, ↓reduceIte]
-    exact (kinds_dropMux p.dropSock m).trans (kinds_finish _ _ e se)
-  · simp only [hf, Bool.false_eq_true, ↓reduceIte]
-    exact (kinds_dropMux p m).trans (kinds_finish _ _ e se)
-
 theorem kinds_preSelect (p : ProxyS) (m : MuxL) : Kinds m (p.preSelectFlags m).2 := by
   unfold ProxyS.preSelectFlags
   by_cases hf : p.sockFirst = true
@@ -90,6 +82,14 @@ theorem kinds_preSelect (p : ProxyS) (m : MuxL) : Kinds m (p.preSelectFlags m).2
     by_cases hs : (if p.mw.shutW = true then p.sw.noread else p.sw).shutW = true
     · rw [if_pos hs]; exact kinds_mwNoread p.mw m
     · rw [if_neg hs]; exact Kinds.refl m
+
+theorem kinds_cleanup (p : ProxyS) (m : MuxL) (e : ESock) (se : Bool) : Kinds m (p.cleanup m e se).2.1 := by
+  unfold ProxyS.cleanup
+  by_cases hf : p.sockFirst = true
+  · simp only [hf, ↓reduceIte]
+    exact ((kinds_dropMux p.dropSock m).trans (kinds_preSelect _ _)).trans (kinds_finish _ _ e se)
+  · simp only [hf, Bool.false_eq_true, ↓reduceIte]
+    exact ((kinds_dropMux p m).trans (kinds_preSelect _ _)).trans (kinds_finish _ _ e se)
 
 theorem kinds_callback (p : ProxyS) (m : MuxL) (e : ESock) (io : CbIo) (p' : ProxyS) (m' : MuxL) (e' : ESock)
     (h : p.callback m e io = .ok p' m' e') : Kinds m m' := by
